@@ -1053,7 +1053,9 @@ class ParseUniq:
         if inner:
             # <ref>* not an item</ref>
             children = parse_txt("<br />" + inner, xopts)
-            if children[0].children:  # paragraph had been created...
+            if not children:
+                pass  # (nested too deeply: parse_txt gave up)
+            elif children[0].children:  # paragraph had been created...
                 del children[0].children[0]
             else:
                 del children[0]
@@ -1289,6 +1291,25 @@ def parse_txt(txt, xopts=None, **kwargs):
 
     if not txt:
         return []
+
+    # tag extensions whose body is expanded and parsed again (<ref>, <poem>, <gallery>, ...) can
+    # contain themselves through a template; every level starts a fresh template expansion, so
+    # the expander's recursion limit does not see it
+    depth = getattr(xopts, "parse_depth", None) or 0
+    if depth >= MAX_PARSE_DEPTH:
+        log.warning("tag extensions nested %s deep: content dropped" % depth)
+        return []
+    xopts.parse_depth = depth + 1
+    try:
+        return _parse_txt(txt, xopts, uniquifier)
+    finally:
+        xopts.parse_depth = depth
+
+
+MAX_PARSE_DEPTH = 20
+
+
+def _parse_txt(txt, xopts, uniquifier):
     tokens = tokenize(txt, uniquifier=uniquifier)
 
     td2 = TagParser()
